@@ -217,7 +217,10 @@ pub fn render_variant(t: &mut Tape, v: &Variant, p: &Program) -> String {
             }
             Item::Const { dots, name, e, noemit } => {
                 let e = if v.rename_labels { rename_e(e, &map) } else { e.clone() };
-                item_text(&Item::Const { dots: *dots, name: name.clone(), e, noemit: *noemit })
+                // a constant that shares its bare name with a label is renamed along with it (every occurrence of
+                // the name is rewritten, so the renaming stays consistent)
+                let n = if v.rename_labels { map.get(name).cloned().unwrap_or_else(|| name.clone()) } else { name.clone() };
+                item_text(&Item::Const { dots: *dots, name: n, e, noemit: *noemit })
             }
             Item::Data { width, elems } => {
                 let elems = if v.rename_labels { elems.iter().map(|e| rename_e(e, &map)).collect() } else { elems.clone() };
